@@ -718,13 +718,35 @@ class Batch:
         model = vf.run_model('resolve', cf)
         self.impl = vf.by_id(impl)
         self.model = vf.by_id(model)
+        # the implementation process died on some case (stack overflow, abort): isolate it by re-running the cases without a
+        # result line one by one (bounded), so that the culprit is reported as a concrete input and the others still compared
+        self.crashed = {}
+        index = {b.split(' ', 2)[1]: b for b in self.blocks}
+        for attempt in range(12):
+            missing = [cid for cid in self.cases if cid not in self.impl and cid not in self.crashed]
+            if not missing:
+                break
+            one = os.path.join(self.dir, 'retry_%d_one.txt' % attempt)
+            with open(one, 'w', encoding='utf-8') as f:
+                f.write(index[missing[0]])
+            rc1, out1, err1 = vf.run_impl('resolve', one, timeout=120)
+            got = vf.by_id(out1)
+            if missing[0] in got:
+                self.impl[missing[0]] = got[missing[0]]
+            else:
+                self.crashed[missing[0]] = (rc1, err1[-400:])
+            if len(missing) > 1:
+                rest = os.path.join(self.dir, 'retry_%d_rest.txt' % attempt)
+                with open(rest, 'w', encoding='utf-8') as f:
+                    f.write(''.join(index[c] for c in missing[1:]))
+                rc2, out2, err2 = vf.run_impl('resolve', rest)
+                self.impl.update(vf.by_id(out2))
         return self
 
     def block_of(self, cid):
-        for b in self.blocks:
-            if b.startswith('CASE %s ' % cid):
-                return b
-        return ''
+        if not hasattr(self, '_index'):
+            self._index = {b.split(' ', 2)[1]: b for b in self.blocks}
+        return self._index.get(cid, '')
 
     def cleanup(self):
         shutil.rmtree(self.dir, ignore_errors=True)
@@ -733,6 +755,7 @@ class Batch:
 def compare(ck, batch, proj, prop_text):
     """per-case comparison of the projection `proj`; on a difference the oracle decides. Returns number of differences."""
     ndiff = 0
+    nmissing = 0
     for cid, (cfg, mode, args, family) in batch.cases.items():
         m = batch.model.get(cid)
         r = batch.impl.get(cid)
@@ -744,10 +767,23 @@ def compare(ck, batch, proj, prop_text):
         ck.tally('%s:projects:%d' % (proj, len(cfg.loaded())))
         if pm is not None:
             ck.tally('%s:model:%s' % (proj, (pm['res'] or 'cli-' + str(pm['cli'])).split(';')[0]))
-        if r is None or m is None:
-            ck.violation({'kind': 'resolve-correspondence', 'case': cid, 'what': 'missing result line', 'model': m, 'impl': r,
-                          'config': describe(cfg, mode, args), 'impl_stderr': batch.impl_err[-500:]}, found_input=False)
+        if r is None and cid in getattr(batch, 'crashed', {}):
+            rc1, err1 = batch.crashed[cid]
+            ck.violation({'kind': 'resolve-crash', 'family': family, 'config': describe(cfg, mode, args), 'cfg': dump_cfg(cfg), 'mode': mode,
+                          'args': [list(a) if isinstance(a, tuple) else a for a in args], 'model': m,
+                          'what': 'the process running the real loader/resolver dies on this configuration (exit status %s) instead of '
+                                  'resolving or refusing it' % rc1, 'stderr': err1, 'case_block': batch.block_of(cid),
+                          'property_text': prop_text}, found_input=True)
             ndiff += 1
+            continue
+        if r is None or m is None:
+            ndiff += 1
+            nmissing += 1
+            if nmissing == 1:
+                ck.violation({'kind': 'resolve-correspondence', 'case': cid, 'model': m, 'impl': r,
+                              'what': 'no result line for this case (and possibly others of the batch: %d implementation crashes were '
+                                      'isolated and reported separately)' % len(getattr(batch, 'crashed', {})),
+                              'config': describe(cfg, mode, args), 'impl_stderr': batch.impl_err[-500:]}, found_input=False)
             continue
         pr = parse_result(r)
         same = project_line(m, proj) == project_line(r, proj)
